@@ -8,7 +8,7 @@ from dataclasses import dataclass, field, asdict
 from pathlib import Path
 import vlib, drive, refgen, panel, oracle as O, cvoracle as CV, ordctl
 
-ENGINE_VERSION = 4
+ENGINE_VERSION = 5
 CACHE_DIR = vlib.VERIF / '.cache'
 
 
@@ -178,7 +178,9 @@ def tree_key():
                 h.update(p.read_bytes())
         import Bio
         h.update(f'{Bio.__version__}|{sys.version}|{ENGINE_VERSION}'.encode())
-        for f in ('enginea.py', 'drive.py', 'refgen.py', 'panel.py', 'ordctl.py'):
+        # enginea.py itself is represented by ENGINE_VERSION (bump it when execute()/write_case_files() change), so
+        # that adding block generators does not invalidate memoised executions
+        for f in ('drive.py', 'refgen.py', 'panel.py', 'ordctl.py'):
             h.update((vlib.VERIF / 'lib' / f).read_bytes())
         _tree_key = h.hexdigest()[:24]
     return _tree_key
